@@ -472,20 +472,24 @@ class PageElement(object):
         XMLFormatter or HTMLFormatter is more appropriate. It can be
         inefficient, but it should be called very rarely.
         """
-        if self.known_xml is not None:
-            # Most of the time we will have determined this when the
-            # document is parsed.
-            return self.known_xml
+        # Walk up the tree in a loop rather than by recursion, so that
+        # deeply nested markup can't overflow the stack.
+        element: PageElement = self
+        while True:
+            if element.known_xml is not None:
+                # Most of the time we will have determined this when the
+                # document is parsed.
+                return element.known_xml
 
-        # Otherwise, it's likely that this element was created by
-        # direct invocation of the constructor from within the user's
-        # Python code.
-        if self.parent is None:
-            # This is the top-level object. It should have .known_xml set
-            # from tree creation. If not, take a guess--BS is usually
-            # used on HTML markup.
-            return getattr(self, "is_xml", False)
-        return self.parent._is_xml
+            # Otherwise, it's likely that this element was created by
+            # direct invocation of the constructor from within the user's
+            # Python code.
+            if element.parent is None:
+                # This is the top-level object. It should have .known_xml set
+                # from tree creation. If not, take a guess--BS is usually
+                # used on HTML markup.
+                return getattr(element, "is_xml", False)
+            element = element.parent
 
     nextSibling = _deprecated_alias("nextSibling", "next_sibling", "4.0.0")
     previousSibling = _deprecated_alias("previousSibling", "previous_sibling", "4.0.0")
